@@ -125,6 +125,12 @@ pub enum CallSpec {
         right_n: usize,
         allow_lsq: bool,
     },
+    /// several solves on ONE spline object (a history: what an earlier solve, successful or
+    /// refused, leaves behind must not make a later one abort)
+    CsolveSeq {
+        spec: SplineSpec,
+        calls: Vec<SolveSpec>,
+    },
 }
 
 #[derive(Clone, Debug, Serialize, Deserialize, PartialEq)]
@@ -985,6 +991,78 @@ fn exec_call(c: &CallSpec, obs: &mut Obs) -> Result<(), Fail> {
                 obs.count(&format!("call.{}", target));
             }
         }
+        CallSpec::CsolveSeq { spec, calls } => {
+            let t: Vec<f64> = spec.t.iter().map(|x| x.get()).collect();
+            if t.len() < 2 || spec.k < 1 || t.len() < spec.k {
+                return Err(Fail::Harness(HarnessError("bad spline spec".into())));
+            }
+            let target = "PPSpline::csolve";
+            macro_rules! seq {
+                ($T:ty, $conv:expr, $shape:expr) => {{
+                    let mut p: PPSpline<$T> = PPSpline::new(spec.k, t.clone(), None);
+                    for (ci, c) in calls.iter().enumerate() {
+                        let tau = fl(&c.tau);
+                        let ys: Vec<$T> = c.y.iter().map($conv).collect();
+                        let r = guard(|| {
+                            p.csolve(&tau, &ys, c.left_n, c.right_n, c.allow_lsq).is_ok()
+                        });
+                        match r {
+                            Err(pi) => {
+                                return Err(panic_to(
+                                    target,
+                                    pi,
+                                    format!(
+                                        "call {} of {} on one spline: k={}, {} knots, {} sites, {} values, lsq={}",
+                                        ci + 1,
+                                        calls.len(),
+                                        spec.k,
+                                        t.len(),
+                                        tau.len(),
+                                        c.y.len(),
+                                        c.allow_lsq
+                                    ),
+                                ))
+                            }
+                            Ok(ok) => {
+                                shape_spline(&p, $shape).map_err(|w| shape_to(target, w))?;
+                                obs.count(if ok {
+                                    "call.PPSpline::csolve(seq).ok"
+                                } else {
+                                    "call.PPSpline::csolve(seq).err"
+                                });
+                            }
+                        }
+                        // evaluation after each solve must not unwind either
+                        let x0 = t[0];
+                        if let Err(pi) = guard(|| {
+                            let _ = p.ppdnev_single(&x0, 0);
+                        }) {
+                            return Err(panic_to("PPSpline::ppdnev_single", pi, "after csolve".into()));
+                        }
+                    }
+                }};
+            }
+            match spec.kind {
+                0 => seq!(f64, |n: &Num| n.value(), &|_| Ok(())),
+                1 => seq!(
+                    Dual,
+                    |n: &Num| match n {
+                        Num::D { v, g } => to_dual(v.get(), g).unwrap_or(Dual::new(v.get(), vec![])),
+                        o => Dual::new(o.value(), vec![]),
+                    },
+                    &shape_dual
+                ),
+                _ => seq!(
+                    Dual2,
+                    |n: &Num| match n {
+                        Num::D2 { v, g, h } =>
+                            to_dual2(v.get(), g, h).unwrap_or(Dual2::new(v.get(), vec![])),
+                        o => Dual2::new(o.value(), vec![]),
+                    },
+                    &shape_dual2
+                ),
+            }
+        }
         CallSpec::Csolve {
             spec,
             tau,
@@ -1483,6 +1561,42 @@ fn emit_calls(seed: u64, tier: Tier, unit: u64, sink: &mut dyn FnMut(Plan) -> bo
                     }
                 }
             }
+            // histories of solves on one object: exact, least-squares with extra sites appended
+            // (so that one site vector is a prefix of another), refused, repeated
+            for _ in 0..20 {
+                let spec = gen_spline(r);
+                let good = gen_solve(r, &spec, false);
+                let tt: Vec<f64> = spec.t.iter().map(|x| x.get()).collect();
+                let (a, b) = (tt[0], tt[tt.len() - 1]);
+                let mut long = good.clone();
+                for _ in 0..r.usize_in(1, 3) {
+                    long.tau.push(Fx::new(a + (b - a) * r.unit()));
+                    long.y.push(good.y[0].clone());
+                }
+                long.allow_lsq = true;
+                let mut short = good.clone();
+                if short.tau.len() > 1 {
+                    short.tau.pop();
+                    short.y.pop();
+                }
+                let bad = gen_solve(r, &spec, true);
+                let pool = [good.clone(), long.clone(), short.clone(), bad.clone(), good.clone()];
+                let m = r.usize_in(2, 4);
+                let calls: Vec<SolveSpec> = (0..m).map(|_| r.pick(&pool).clone()).collect();
+                sink(Plan::Call(CallSpec::CsolveSeq {
+                    spec: spec.clone(),
+                    calls,
+                }));
+                // the two orders of (long least-squares, exact prefix) explicitly
+                sink(Plan::Call(CallSpec::CsolveSeq {
+                    spec: spec.clone(),
+                    calls: vec![long.clone(), good.clone()],
+                }));
+                sink(Plan::Call(CallSpec::CsolveSeq {
+                    spec: spec.clone(),
+                    calls: vec![good.clone(), long.clone(), good.clone()],
+                }));
+            }
             for _ in 0..30 {
                 let spec = gen_spline(r);
                 let good = gen_solve(r, &spec, false);
@@ -1676,6 +1790,26 @@ pub fn shrink(plan: &Plan) -> Vec<Plan> {
                         }
                     }
                 }
+                CallSpec::CsolveSeq { spec, calls } => {
+                    for i in 0..calls.len() {
+                        if calls.len() > 1 {
+                            let mut c2 = calls.clone();
+                            c2.remove(i);
+                            cs.push(CallSpec::CsolveSeq {
+                                spec: spec.clone(),
+                                calls: c2,
+                            });
+                        }
+                    }
+                    if spec.kind != 0 {
+                        let mut s2 = spec.clone();
+                        s2.kind = 0;
+                        cs.push(CallSpec::CsolveSeq {
+                            spec: s2,
+                            calls: calls.clone(),
+                        });
+                    }
+                }
                 CallSpec::Csolve {
                     spec,
                     tau,
@@ -1765,6 +1899,7 @@ impl Scenario for C20 {
                 CallSpec::NamedCal(_) => "NamedCal::try_new".into(),
                 CallSpec::DateSweep { func, .. } => format!("DateRoll::{:?}", func),
                 CallSpec::Csolve { .. } => "PPSpline::csolve".into(),
+                CallSpec::CsolveSeq { .. } => "PPSpline::csolve(sequence)".into(),
             },
         }
     }
